@@ -101,6 +101,19 @@ pub fn c13(args: &Args) {
             }
         }
     }
+    // prefix-related inputs in consecutive calls, growing then shrinking
+    {
+        let v: Vec<i64> = (0..1024).map(|i| if i == 0 { 1 } else { rng.gen_range(-300..=300) }).collect();
+        let mut order: Vec<usize> = (1..=10).collect();
+        order.extend((1..=9).rev());
+        for w in order {
+            let n = 1usize << w;
+            let a = v[..n].to_vec();
+            let fa = lift(&a);
+            out.emit(comp_event("roundtrip", n, &a, &[], guarded(|| verif::cifft(&verif::cfft(&fa))), "prefix"));
+            out.emit(comp_event("mul", n, &a, &a, guarded(|| verif::cifft(&verif::chadamard_mul(&verif::cfft(&fa), &verif::cfft(&fa)))), "prefix"));
+        }
+    }
     // descending and interleaved lengths (state cached from a previous, different length)
     let mut order: Vec<usize> = (1..=10).rev().collect();
     order.extend([3usize, 10, 1, 9, 2, 8, 10, 5]);
